@@ -24,7 +24,7 @@ ASSUMPTIONS = ["Redis and RabbitMQ are wire-level fakes", "virtual time; slack a
                "'completed' = a terminal disposition took effect at the broker; an actor that finished but whose ack was cut off and whose message went back is ordinary at-least-once redelivery",
                "process death = both wire directions cut and every task of the process cancelled; judged from server state only"]
 EVAL_COUNTER = "injections_judged"
-REQUIRED = ["injections_judged", "stop_injections", "death_injections", "limit_stops", "messages_classified", "inflight_at_injection", "phase_actor_body", "phase_broker_call", "recoveries_checked"]
+REQUIRED = ["injections_judged", "stop_injections", "death_injections", "limit_stops", "messages_classified", "inflight_at_injection", "phase_actor_body", "phase_broker_call", "recoveries_checked", "stops_with_open_health_connections"]
 CASE_TIMEOUT = 600
 SHARD_TIMEOUT = {"quick": 1200, "thorough": 3600}
 EXEC_TIMEOUT = 20.0
@@ -74,6 +74,15 @@ def gen_cases(tier, seed):
         base = {"kind": kind, "jobs": jobs, "tl": 1000, "seed": rnd.randrange(10**6), "latency": None if kind == "mem" else 0.002}
         for part in range(parts):
             cases.append(dict(base, fault="stop", graceful=0.0, sample=0.02 if tier == "quick" else 0.1, part=part, parts=parts))
+        # directed: the worker serves its health endpoint and a monitoring client keeps connections to it open (idle, half a
+        # request) while the worker is stopped: the run still returns in time and every message is cleaned up
+        jobs = [{"kind": "ok", "d": 10.0}, {"kind": "fail_retry", "d": 0.3}, {"kind": "ok", "d": 0.3}, {"kind": "result", "d": 10.0}]
+        base = {"kind": kind, "jobs": jobs, "tl": 2, "seed": rnd.randrange(10**6), "latency": None if kind == "mem" else 0.002, "health": ["idle", "partial"]}
+        hparts = 2 if tier == "quick" else 4
+        for g in ((0.5,) if tier == "quick" else (0.0, 0.5)):
+            for part in range(hparts):
+                cases.append(dict(base, fault="stop", graceful=g, sample=0.02 if tier == "quick" else 0.1, part=part, parts=hparts))
+        cases.append(dict(base, fault="limit", graceful=0.5, M=1, sample=0, part=0, parts=1))
     return cases
 
 
@@ -107,6 +116,7 @@ async def scenario(loop, case, inject_step, info):
 
     kind = case["kind"]
     w = World(loop, kind, converter="basic", seed=case["seed"], latency=case["latency"])
+    hc_clients, hc_task = [], None
     try:
         await w.open()
         r = w.router(retry_policy=lambda retry_number=1: timedelta(seconds=0.5))
@@ -125,6 +135,34 @@ async def scenario(loop, case, inject_step, info):
             await w.job("act", id_, script, retries=0 if j["kind"] == "fail_nack" else 1, timeout=timedelta(seconds=case.get("exec_timeout", EXEC_TIMEOUT)), store_result=(j["kind"] == "result")).enqueue()
         sig = __import__("signal").SIGUSR1
         wkw = {"messages_limit": case["M"]} if case.get("M") else {}
+        if case.get("health"):
+            # the worker serves its health endpoint (a real loopback socket, polled by the virtual loop) and a monitoring
+            # client keeps connections to it open, idle or with half a request sent, for the whole life of the worker
+            import socket as _socket
+            from repid.health_check_server import HealthCheckServerSettings
+
+            _s = _socket.socket()
+            _s.bind(("127.0.0.1", 0))
+            hc_port = _s.getsockname()[1]
+            _s.close()
+            wkw.update(run_health_check_server=True, health_check_server_settings=HealthCheckServerSettings(address="127.0.0.1", port=hc_port))
+
+            async def hc_client():
+                for what in case["health"]:
+                    for _ in range(200):
+                        try:
+                            rd, wr = await asyncio.open_connection("127.0.0.1", hc_port)
+                            break
+                        except OSError:
+                            await asyncio.sleep(0.01)
+                    else:
+                        return
+                    if what == "partial":
+                        wr.write(b"GET /healthz HT")
+                    hc_clients.append((rd, wr))
+                    info["health_clients"] = len(hc_clients)
+
+            hc_task = loop.create_task(hc_client(), name="hc-client")
         worker = w.worker([r], tasks_limit=case["tl"], graceful_shutdown_time=case["graceful"], handle_signals=[sig], **wkw)
         start_step = loop.steps
         info["start_step"] = start_step
@@ -134,7 +172,7 @@ async def scenario(loop, case, inject_step, info):
 
         def process_tasks():
             server_tasks = set(w.rig.net.server_tasks) if w.rig.net is not None else set()
-            return [t for t in asyncio.all_tasks(loop) if t is not controller and t not in server_tasks and not t.done()]
+            return [t for t in asyncio.all_tasks(loop) if t is not controller and t is not hc_task and t not in server_tasks and not t.done()]
 
         t_begin = loop.time()
 
@@ -262,6 +300,13 @@ async def scenario(loop, case, inject_step, info):
                 rec["late"] = late1
                 rec["snapshot_after"] = w.rig.snapshot()
     finally:
+        if hc_task is not None and not hc_task.done():
+            hc_task.cancel()
+        for _, wr in hc_clients:
+            try:
+                wr.close()
+            except Exception:  # noqa: BLE001
+                pass
         await w.close()
 
 
@@ -357,6 +402,8 @@ def run_case(case):
                 continue
             stats["injections_judged"] += 1
             stats["limit_stops"] += 1
+            if info.get("health_clients"):
+                stats["stops_with_open_health_connections"] += 1
             info["phase"] = "limit"
             fps.add(f"{case['kind']}/limit/{case['M']}/{case['graceful']}/{variant}/{case['tl']}")
             if not info.get("limit_returned"):
@@ -409,6 +456,8 @@ def run_case(case):
             continue
         stats["injections_judged"] += 1
         stats[case["fault"] + "_injections"] += 1
+        if info.get("health_clients"):
+            stats["stops_with_open_health_connections"] += 1
         sig = " | ".join(inj["sigs"])
         phases = sorted({phase_of(s) for s in inj["sigs"]})
         info["phase"] = "+".join(p for p in phases if p not in ("other",)) or "idle"
